@@ -36,6 +36,7 @@ PROPS = {
             "handlers": (None, ALL),
             "coldpath": (None, ALL),
             "select": (None, ALL),
+            "step": (None, ALL),
             "equality": [(["Executor::handle_equal"], ALL), (None, ("safety",))],
             "transfer": (None, ("safety",)),
             "builtins_binary": (None, ("safety",)),
@@ -75,6 +76,7 @@ PROPS = {
             "handlers": (None, ALL),
             "coldpath": (None, ALL),
             "select": (None, ALL),
+            "step": (None, ALL),
             "equality": (["Executor::handle_equal"], ALL),
             "transfer": (None, ALL),
         },
